@@ -164,6 +164,24 @@ def rand_case(rng, order, d, n, flags=None, tmType=None, smType=None, k=0, steps
     return c
 
 
+def tiny_x(rng, c):
+    """decision variables whose durations decode to 0.06 … 0.5 ms - legal: the one-millisecond rule applies to the reference
+    durations of setInitState, the decision vector is unconstrained; all of them tiny, so the spline stays well scaled"""
+    x = rand_x(rng, c)
+    for i in range(c.n):
+        if c.tmType == 0:
+            x[i] = float(-rng.randint(64, 120))                                  # 1 / (tau^2/2 - tau + 1)
+        elif c.tmType == 1:
+            x[i] = rng.randint(2, 8) * 2.0 ** -14
+        elif c.tmType == 3:
+            x[i] = float(-rng.randint(16384, 65536)) if c.tmInst == 1 else float(-rng.randint(8192, 32768))
+        elif c.tmInst == 1:
+            x[i] = -0.5 + rng.randint(2, 8) * 2.0 ** -13                         # T = tau/2 + 1/4
+        else:
+            x[i] = -0.25 + rng.randint(2, 8) * 2.0 ** -15                        # T = 2 tau + 1/2
+    return x
+
+
 def rand_x(rng, c):
     vars_, doff, total = c.layout()
     x = [0.0] * total
